@@ -71,10 +71,13 @@ func genC08(r *sim.Rand, tier string) *sim.Program {
 		if r.Chance(1, 5) {
 			mixed = r.Range(1, 2) // 1: only the responder generates confirmation values; 2: only the initiator does
 		}
-		p.Add("session", r.Intn(2), r.Intn(2), fault, r.Intn(3), r.Intn(1<<16), 1+r.Intn(255), r.Intn(1<<30), r.Intn(1<<30), degenerate, reuse, mixed)
+		p.Add("session", r.Intn(2), r.Intn(2), fault, r.Intn(3), r.Intn(1<<16), 1+r.Intn(255), r.Intn(1<<30), r.Intn(1<<30), degenerate, reuse, mixed, r.PickInt(0, 0, 1, 2, 3))
 	}
 	if r.Chance(1, 3) {
 		p.Add("ecdh")
+	}
+	if r.Chance(1, 12) {
+		p.Add("overlong", r.Intn(2), r.PickInt(8192, 8192, 8193, 9000, 65536), r.Intn(1<<30))
 	}
 	return p
 }
@@ -139,6 +142,18 @@ func execC08(t *testing.T, p *sim.Program, c *sim.Ctx) {
 	if len(idB) > 8191 {
 		idB = idB[:8191]
 	}
+	// both identifiers live in ONE message buffer, ID_A directly in front of ID_B, followed by other data: the slices
+	// handed to the library have spare capacity that belongs to somebody else. The library may read them, nothing more.
+	packed := append(append(append([]byte{}, idA...), idB...), bytes.Repeat([]byte{0xC3}, 256)...)
+	packedWant := append([]byte{}, packed...)
+	idA, idB = packed[:len(idA)], packed[len(idA):len(idA)+len(idB)]
+	bufferIntact := func(i int, kind string) bool {
+		if !bytes.Equal(packed, packedWant) {
+			c.Fail("caller-buffer-modified", i, kind, "the buffer holding ID_A || ID_B || other data was written to at offset %d (ID_A %d bytes, ID_B %d bytes)", firstDiff(packed, packedWant), len(idA), len(idB))
+			return false
+		}
+		return true
+	}
 	klen := p.C("klen")
 	if klen < 1 || klen > 4096 {
 		klen = 16
@@ -162,7 +177,7 @@ func execC08(t *testing.T, p *sim.Program, c *sim.Ctx) {
 		b[31] |= 1
 		return new(big.Int).SetBytes(b)
 	}
-	newParty := func(impl int, initiator bool, r *big.Int, privA, privB *sm2.PrivateKey, dA, dB *big.Int, reuseKE *sm2.KeyExchange, conf bool) (*c08Party, error) {
+	newParty := func(impl int, initiator bool, r *big.Int, privA, privB *sm2.PrivateKey, dA, dB *big.Int, reuseKE *sm2.KeyExchange, conf bool, late bool) (*c08Party, error) {
 		q := &c08Party{impl: impl, initiator: initiator, klen: klen, conf: conf, rEph: r}
 		if initiator {
 			q.priv, q.d, q.peerPub, q.uid, q.peerUID = privA, dA, &ecdsa.PublicKey{Curve: privB.Curve, X: privB.X, Y: privB.Y}, idA, idB
@@ -176,6 +191,15 @@ func execC08(t *testing.T, p *sim.Program, c *sim.Ctx) {
 				c.Hit("probe:key-exchange-object-reused")
 				return q, nil
 			}
+			if late {
+				// the peer is not known when the object is made (TLCP): parameters are supplied by the one permitted
+				// SetPeerParameters call; an empty peer identifier means the default one there too
+				c.Hit("probe:late-peer-parameters")
+				if q.ke, err = sm2.NewKeyExchange(q.priv, nil, q.uid, nil, klen, conf); err != nil {
+					return q, err
+				}
+				return q, q.ke.SetPeerParameters(q.peerPub, q.peerUID)
+			}
 			q.ke, err = sm2.NewKeyExchange(q.priv, q.peerPub, q.uid, q.peerUID, klen, conf)
 			return q, err
 		}
@@ -185,9 +209,71 @@ func execC08(t *testing.T, p *sim.Program, c *sim.Ctx) {
 		q.ee, err = ecdh.P256().NewPrivateKey(r.FillBytes(make([]byte, 32)))
 		return q, err
 	}
+	defer func() {
+		if !c.Failed() {
+			bufferIntact(len(p.Ops)-1, "session")
+		}
+	}()
 	for i, op := range p.Ops {
 		if c.Failed() {
 			return
+		}
+		if i > 0 && !bufferIntact(i-1, p.Ops[i-1].K) {
+			return
+		}
+		if op.K == "overlong" {
+			// an identifier of 8192 bytes or more has no ENTL (its bit length does not fit 16 bits): Z is undefined, so no
+			// implementation may hand out a key - and the two implementations must not disagree about it
+			c.OpsDone++
+			n := op.Int(1)
+			if n < 8192 || n > 70000 {
+				n = 8192
+			}
+			long := derive(p.CB("da"), "overlong id", n)
+			side := op.Int(0) & 1
+			c.Abs("overlong", side, n == 8192)
+			c.Hit("probe:identifier-too-long")
+			ida, idb := idA, idB
+			if side == 0 {
+				ida = long
+			} else {
+				idb = long
+			}
+			pubB := &ecdsa.PublicKey{Curve: privB0.Curve, X: privB0.X, Y: privB0.Y}
+			_, e1 := sm2.NewKeyExchange(privA0, pubB, ida, idb, klen, conf)
+			c.OutErr("overlong-sm2", e1)
+			ea, _ := ecdh.P256().NewPrivateKey(dA0.FillBytes(make([]byte, 32)))
+			eb, _ := ecdh.P256().NewPrivateKey(dB0.FillBytes(make([]byte, 32)))
+			rA, rB := scalar(op.Int(2), "ra"), scalar(op.Int(2), "rb")
+			eea, _ := ecdh.P256().NewPrivateKey(rA.FillBytes(make([]byte, 32)))
+			eeb, _ := ecdh.P256().NewPrivateKey(rB.FillBytes(make([]byte, 32)))
+			if ea == nil || eb == nil || eea == nil || eeb == nil {
+				continue
+			}
+			va, ev := ea.SM2MQV(eea, eb.PublicKey(), eeb.PublicKey())
+			if ev != nil {
+				continue
+			}
+			for role := 0; role < 2; role++ {
+				// initiator's view (ida is its own identifier) and responder's view of the same pair
+				var key []byte
+				var e2 error
+				if role == 0 {
+					key, e2 = va.SM2SharedKey(false, klen, ea.PublicKey(), eb.PublicKey(), ida, idb)
+				} else {
+					key, e2 = va.SM2SharedKey(true, klen, eb.PublicKey(), ea.PublicKey(), idb, ida)
+				}
+				c.OutErr("overlong-ecdh", e2)
+				if e2 == nil {
+					c.Fail("invalid-identifier-accepted", i, op.K, "ecdh SM2SharedKey (responder=%v) returns a %d-byte key for an identifier of %d bytes (side %d), for which Z is undefined; sm2.NewKeyExchange: %v", role == 1, len(key), n, side, e1)
+					return
+				}
+			}
+			if e1 == nil {
+				c.Fail("invalid-identifier-accepted", i, op.K, "sm2.NewKeyExchange accepts an identifier of %d bytes (side %d), for which Z is undefined", n, side)
+				return
+			}
+			continue
 		}
 		if op.K == "ecdh" {
 			c.OpsDone++
@@ -285,12 +371,12 @@ func execC08(t *testing.T, p *sim.Program, c *sim.Ctx) {
 			if reuse && attempt == 0 {
 				ruA, ruB = keepA, keepB
 			}
-			A, err := newParty(implA, true, rA, privA, privB, dA, dB, ruA, confA)
+			A, err := newParty(implA, true, rA, privA, privB, dA, dB, ruA, confA, op.Int(11)&1 == 1)
 			if err != nil {
 				c.Fail("setup", i, op.K, "initiator: %v", err)
 				return
 			}
-			B, err := newParty(implB, false, rB, privA, privB, dA, dB, ruB, confB)
+			B, err := newParty(implB, false, rB, privA, privB, dA, dB, ruB, confB, op.Int(11)&2 == 2)
 			if err != nil {
 				c.Fail("setup", i, op.K, "responder: %v", err)
 				return
